@@ -22,7 +22,7 @@ import time
 VERIF = os.path.dirname(os.path.abspath(__file__))
 BUILD = os.environ.get("VERIF_BUILD", os.path.join(VERIF, ".build"))
 OUTDIR = os.environ.get("VERIF_OUTDIR", VERIF)  # where evidence/ and replays/ are written
-SIM = os.path.join(VERIF, "sim")
+SIM = os.environ.get("VERIF_SIM", os.path.join(VERIF, "sim"))  # (tools/try_mutant.sh evaluates against a snapshot of the harness sources)
 REPO = os.environ.get("VERIF_REPO", "/repo")
 GO = "go1.26.8"
 NWORKERS = int(os.environ.get("VERIF_WORKERS", "16"))
